@@ -13,6 +13,7 @@ import SpdxVerif.Lemmas.GoScan
 import SpdxVerif.Lemmas.GoDeref
 import SpdxVerif.Lemmas.GoSlices
 import SpdxVerif.Lemmas.GoScanRefine
+import SpdxVerif.Lemmas.GoParseRefine
 import SpdxVerif.Spec.Census
 namespace Spdx.C03
 
@@ -104,6 +105,30 @@ theorem g_parseG_eq_parse (s : Bytes) : G.parseG s = G.parse s := by
   · rw [G.scanG_eq s]
     simp only [G.bind_ok, toks]
     cases scan s <;> rfl
+
+/-- **refinement**: the Go-shaped parser (token cursor, `peek` returning a nil-able pointer, `next`, the error flag, the
+    diagnostics that only choose an error text) accepts exactly the documented grammar … -/
+theorem g_parseTokens_iff_grammar (ts : List Tok) (n : Node) : G.parseTokens ts = .ok (some n) ↔ D .expr ts n :=
+  G.parseTokens_G_iff ts n
+
+/-- … and therefore computes what the list-based parser of the main model computes -/
+theorem g_parseTokens_refines (ts : List Tok) : G.parseTokens ts = .ok (parseTokens ts) := G.parseTokens_G_eq ts
+
+/-- **the whole Go-shaped `parse` = the main model's `parse`** (scanner with buffer rewrite + cursor parser), for every
+    byte string: all string-level theorems of C01–C12 and C15 about `parse` hold of the transliteration of the Go code -/
+theorem g_parse_refines (s : Bytes) :
+    G.parseG s = .ok (match parse s with | .ok n => some n | .error _ => none) := by
+  unfold G.parseG parse
+  split
+  · rfl
+  · rw [G.scanG_eq s]
+    simp only [G.bind_ok, toks]
+    cases scan s with
+    | error e => rfl
+    | ok ts =>
+      simp only [Except.toOption]
+      rw [G.parseTokens_G_eq ts]
+      cases parseTokens ts <;> rfl
 
 /-! ### the index and slice expressions behind the parser (satisfies.go), Go-shaped (Model/GoSlices.lean) -/
 
